@@ -59,6 +59,18 @@ def bcf_proof():
                           ('compares_31_chars', r'memcmp\(md5_str, md5_str_in, 32\)', 'memcmp(md5_str, md5_str_in, 31)', 'postcondition|precondition')])
 
 
+def loadmem_proof():
+    return Proof('load_mem_file', impl='contracts/fileio/loadmem.impl.cpp', spec='contracts/fileio/loadmem.spec.c', harness='h_load_mem_file', plain=True, no_contract=True, canaries=3, rules={},
+                 nondet_static='.*(g_stat_ok|g_open_ok|g_decode_ok|g_st_size|g_fread_result).*', drop_flags=['--conversion-check'],
+                 functions=['uncrustify.cpp:load_mem_file'], expect=['postcondition: load_mem_file'],
+                 assumed=['stat / fopen / fread / fclose: libc models with arbitrary outcomes (fread returns the number of complete items, possibly fewer than asked for)',
+                          'decode_unicode: succeeds or not (its own contract: C09)', 'exit() does not return'],
+                 note='the paths ending in exit(EX_IOERR) (short read, undecodable text) are cut at the exit model: the postconditions speak about the returning paths',
+                 mutants=[('short_read_accepted', r'if \(fread\(&fm\.raw\[0\], fm\.raw\.size\(\), 1, p_file\) != 1\)', 'if (fread(&fm.raw[0], 1, fm.raw.size(), p_file) == 0)', 'postcondition'),
+                          ('decode_failure_ignored', r'else if \(!decode_unicode\(fm\.raw, fm\.data, fm\.enc, fm\.bom\)\)', 'else if (!decode_unicode(fm.raw, fm.data, fm.enc, fm.bom) && false)', 'postcondition'),
+                          ('stream_leaked', r'   fclose\(p_file\);\n   return\(retval\);', '   return(retval);', 'postcondition')])
+
+
 def md5file_proof():
     env = ['fopen/fopen_md5_contract', 'fread/fread_contract', 'ferror/ferror_src_contract', 'fclose/fclose_md5_contract', 'c_md5_update/md5_update_contract', 'c_md5_final/md5_final_contract',
            'c_write_md5_line/write_md5_line_contract', 'exit/exit_contract']
